@@ -6,6 +6,7 @@ signature -- width, signedness, byte order, format/address dependence resolved t
 DWARF 5 §7.7.1 row (G-SIG); the parse loop structure (offset before the opcode byte, fresh stream, end on empty read).
 """
 import ast
+from sa.canon import U
 from sa.world import get_world
 from sa import dwconf, layout, expr, paths, streams, dispatch, literals, sigs, hrules
 from sa.absint import FuncV, Unknown
@@ -109,7 +110,7 @@ def check_loop(ctx, w):
     order = []
     if ok:
         for st in whiles[0].body:
-            s = ast.unparse(st).split('\n')[0]
+            s = U(st).split('\n')[0]
             order.append(s)
     want = ['offset = stream.tell()', 'byte = stream.read(1)', 'if not byte:', 'op = ord(byte)',
             "op_name = DW_OP_opcode2name.get(op, 'OP:0x%x' % op)", 'arg_parser = self._dispatch_table[op]', 'args = arg_parser(stream)',
@@ -123,7 +124,7 @@ def check_loop(ctx, w):
     ctx.ob('W-LOOP', g.construct, 'dispatch table built from the unit structs', tr.get('self._dispatch_table') == [('=', '_init_dispatch_table(structs)')],
            got=tr.get('self._dispatch_table'))
     h = w.model.func(MOD, '_init_dispatch_table.<locals>.add')
-    src = [ast.unparse(s) for s in h.node.body]
+    src = [U(s) for s in h.node.body]
     ctx.ob('W-LOOP', h.construct, 'registration keyed by the opcode of the name', src == ['table[DW_OP_name2opcode[opcode_name]] = func'], got=src)
     ctx.guard('H-CUR', 'cursor', hrules.run_h, ctx, w, [MOD])
     rb = w.model.func('common/utils.py', 'read_blob')
